@@ -365,9 +365,9 @@ impl ActorProperties {
 
     /// Wait for the actor to exit
     pub(crate) async fn wait(&self) {
-        let notified = self.wait_handler.notified();
         #[cfg(slawlor_ractor_verif)]
         crate::verif_hooks::point("wait_handler.notified");
+        let notified = self.wait_handler.notified();
         if self.get_status() != ActorStatus::Stopped {
             notified.await;
         }
